@@ -33,7 +33,8 @@ pub fn install_panic_hook() {
             "<non-string panic>".to_string()
         };
         LAST_PANIC.with(|p| *p.borrow_mut() = Some(format!("{msg} @ {loc}")));
-        if std::env::var_os("MC_SHOW_PANICS").is_some() {
+        let harness = !loc.starts_with('/') && msg != "budget";
+        if harness || std::env::var_os("MC_SHOW_PANICS").is_some() {
             eprintln!("panic: {msg} @ {loc}");
         }
     }));
@@ -326,6 +327,9 @@ impl Decoder {
     pub fn new(levels: [bool; NPINS]) -> Decoder {
         Decoder { pos: 0, levels, n_txn: 0, n_spi_other: 0 }
     }
+    pub fn reset_pos(&mut self) {
+        self.pos = 0;
+    }
     /// feed all new events into the controller
     pub fn sync(&mut self, b: &Board, tr: Transport, ctl: &mut Ctl) {
         let nbits = if tr.bus16() { 16 } else { 8 };
@@ -443,6 +447,16 @@ impl Rig {
     pub fn sync(&mut self) {
         let b = self.bd.borrow();
         self.dec.sync(&b, self.cfg.tr, &mut self.ctl);
+    }
+    /// drop the event log (long-running rigs); decoder and controller state are kept
+    pub fn reset_logs(&mut self) {
+        self.sync();
+        let mut b = self.bd.borrow_mut();
+        b.evs.clear();
+        b.bytes.clear();
+        b.words.clear();
+        self.dec.reset_pos();
+        self.ctl.cmds.clear();
     }
     /// number of low-level operations so far
     pub fn ops(&self) -> u64 {
